@@ -32,4 +32,16 @@ def main : IO Unit := do
     let g := (Value_MarshalAppend_sliceBool [5] vals).map (·.ret)
     if g != some (some ([5] ++ vals.map boolByte)) then
       IO.println s!"DIFF Value_MarshalAppend_sliceBool b=[5] vals={vals} go={g} model={[5] ++ vals.map boolByte} op=-"
+  for arch in [0, 1, 2] do
+    for vals in [[], [0x1234], [1, 0x8001, 0xFFFF], [0x0102030405060708, 0xFFFFFFFF, 0]] do
+      let m (w : Nat) := some (some ([5] ++ vals.flatMap (enc w arch)))
+      let g16 := (Value_MarshalAppend_sliceUint16 arch [5] (vals.map (· % 2 ^ 16))).map (·.ret)
+      if g16 != some (some ([5] ++ (vals.map (· % 2 ^ 16)).flatMap (enc 2 arch))) then
+        IO.println s!"DIFF Value_MarshalAppend_sliceUint16 arch={arch} b=[5] vals={vals.map (· % 2 ^ 16)} go={g16} model={[5] ++ (vals.map (· % 2 ^ 16)).flatMap (enc 2 arch)} op=-"
+      let g32 := (Value_MarshalAppend_sliceUint32 arch [5] (vals.map (· % 2 ^ 32))).map (·.ret)
+      if g32 != some (some ([5] ++ (vals.map (· % 2 ^ 32)).flatMap (enc 4 arch))) then
+        IO.println s!"DIFF Value_MarshalAppend_sliceUint32 arch={arch} b=[5] vals={vals.map (· % 2 ^ 32)} go={g32} model={[5] ++ (vals.map (· % 2 ^ 32)).flatMap (enc 4 arch)} op=-"
+      let g64 := (Value_MarshalAppend_sliceUint64 arch [5] vals).map (·.ret)
+      if g64 != m 8 then
+        IO.println s!"DIFF Value_MarshalAppend_sliceUint64 arch={arch} b=[5] vals={vals} go={g64} model={m 8} op=-"
   IO.println "DONE"
